@@ -36,10 +36,10 @@ OUTSIDE = ["TimeDate / TimeSpan persistence with symbolic configurations (covere
 STUBS = ["virtual-time loop with symbolic clock", "time.time() of edzed.addons/fsm/simulator/utils.looptimes = "
          "EPOCH + loop time + symbolic offset (downtime)", "deep copy of the dict = the pickling of a real storage"]
 ASSUMPTIONS = ["a crash loses nothing that was assigned to the storage mapping (the storage itself is durable)"]
-EXPECT_LABELS = {'all': ['saved-after-init', 'saved-after-event', 'saved-at-stop', 'stop-time', 'unused-removed',
+EXPECT_LABELS = {'all': ['harmless-error', 'saved-after-init', 'saved-after-event', 'saved-at-stop', 'stop-time', 'unused-removed',
                          'restore-decision', 'restored-state', 'restored-timer-absolute', 'no-entry-actions',
                          'not-saved-after-handler-error', 'failed-start-nothing-written', 'nosync-not-saved']}
-EXPECT_NOTES = {'all': ['restored', 'discarded-expired', 'discarded-timer-ran-out', 'restart-from-crash-point',
+EXPECT_NOTES = {'all': ['stale-stop-time-in-crash-snapshot', 'harmless-error-before-a-saved-event', 'restored', 'discarded-expired', 'discarded-timer-ran-out', 'restart-from-crash-point',
                         'restart-from-regular-stop', 'timer-pending-at-snapshot', 'rejected-timed-event-before-snapshot']}
 FLOORS = {'quick': {'paths': 500, 'checks': 3000}, 'thorough': {'paths': 5000, 'checks': 30000}}
 
@@ -94,10 +94,16 @@ def mk_simple(kind, sync, exp_kw, thr=None):
 def _simple(env, kind, sync, nev, clock, snap_idx, ek0):
     circ = fresh_circuit()
     store = PickleStore(STALE)
+    if env.choose(2, 'old_stop_time'):
+        # the storage comes from an earlier session: crash snapshots of this run carry THAT stop time
+        store['edzed-stop-time'] = clock.EPOCH - 500.0
+        env.note('stale-stop-time-in-crash-snapshot')
     circ.set_persistent_data(store)
     thr = env.int('check_min', None, 7) if kind == 'input' else None     # initdef 7 must pass the check
     blk = mk_simple(kind, sync, {}, thr)
     other = Settable('other', init=0)
+    # a second persistent block with the opposite sync_state: saved at init and at the stop 'together'
+    cnt2 = edzed.Counter('cnt2', persistent=True, sync_state=not sync, initdef=40)
     snaps = []
     ref = {'val': 7, 'failed': False}
     gaps = [env.real(f'gap{i}', 0, 100) for i in range(nev)]
@@ -109,15 +115,30 @@ def _simple(env, kind, sync, nev, clock, snap_idx, ek0):
         env.check('unused-removed', "<Input 'gone'>" not in store and store.get('edzed-custom') == 'keep me',
                   info=lambda: store)
         env.check('saved-after-init', state_eq(store.get(blk.key), 7), info=lambda: store)
+        env.check('saved-after-init', state_eq(store.get(cnt2.key), 40), info=lambda: store)
         snaps.append(('init', snap(store), 7))
+        cnt2.event('inc')
+        env.check('saved-after-event' if not sync else 'nosync-not-saved', state_eq(store.get(cnt2.key), 41 if not sync else 40),
+                  info=lambda: store)
         for i in range(nev):
             await asyncio.sleep(gaps[i])
             if kind == 'input':
-                et = env.pick(['put', 'put-fail'], f'ev{i}')
+                et = env.pick(['put', 'put-fail', 'unknown', 'badparam'], f'ev{i}')
             else:
-                et = env.pick(['inc', 'put', 'fail'], f'ev{i}')
+                et = env.pick(['inc', 'put', 'fail', 'unknown', 'badparam'], f'ev{i}')
             v = env.int(f'v{i}')
             before = snap(store)
+            if et in ('unknown', 'badparam'):
+                # errors that are only reported to the caller: nothing changes, and saving goes on afterwards
+                env.note('harmless-error-before-a-saved-event')
+                try:
+                    blk.event('no_such_event') if et == 'unknown' else blk.event('put')
+                    env.check('harmless-error', False)
+                except (edzed.EdzedUnknownEvent, TypeError):
+                    pass
+                env.check('harmless-error', circ.error is None and state_eq(store.get(blk.key), before.get(blk.key)),
+                          info=lambda: (circ.error, store, before))
+                continue
             try:
                 if et == 'put':
                     r = blk.event('put', value=v)
@@ -155,7 +176,8 @@ def _simple(env, kind, sync, nev, clock, snap_idx, ek0):
             env.check('not-saved-after-handler-error', state_eq(store.get(blk.key), before_stop.get(blk.key))
                       and True, info=lambda: (store, before_stop))
         else:
-            env.check('saved-at-stop', state_eq(store.get(blk.key), ref['val']))
+            env.check('saved-at-stop', And_(state_eq(store.get(blk.key), ref['val']), state_eq(store.get(cnt2.key), 41)),
+                      info=lambda: (store, ref))
             env.check('stop-time', isinstance(store.get('edzed-stop-time'), float)
                       and bool(eq_(store['edzed-stop-time'], clock.time())), info=lambda: store)
             snaps.append(('stop', snap(store), ref['val']))
@@ -177,13 +199,19 @@ def _simple(env, kind, sync, nev, clock, snap_idx, ek0):
     env.note('restart-from-regular-stop' if tag == 'stop' else 'restart-from-crash-point')
     down = env.real('downtime', 0, 10000)
     ek = ek0 or env.pick(['none', 'zero', 'sym'], 'expiration')
-    exp = None if ek == 'none' else (0.0 if ek == 'zero' else env.real('expiration', 0, 10000, lo_open=True))
+    exp = None if ek == 'none' else (env.real('expiration_le0', -100, 0) if ek == 'zero'
+                                     else env.real('expiration', 0, 10000, lo_open=True))
     circ2 = fresh_circuit()
     store2 = PickleStore(storage)
     store2["<Counter 'old'>"] = 5
+    # an entry of a block with the same NAME but of another type: not this block's state
+    other_type_key = "<Counter 'blk'>" if kind == 'input' else "<Input 'blk'>"
+    store2[other_type_key] = 99
     circ2.set_persistent_data(store2)
     blk2 = mk_simple(kind, sync, {'expiration': exp}, thr)
     Settable('other', init=0)
+    cnt2b = edzed.Counter('cnt2', persistent=True, sync_state=not sync, initdef=40)
+    saved_cnt2 = storage.get(cnt2.key)
     clock.offset = (t_end1 - clock.EPOCH) + down      # wall clock keeps running while the loop restarts at 0
 
     async def run2():
@@ -207,7 +235,13 @@ def _simple(env, kind, sync, nev, clock, snap_idx, ek0):
             env.note('restored')
         elif env.holds(Not_(restored)):
             env.note('discarded-expired')
-        env.check('unused-removed', "<Counter 'old'>" not in store2 and store2.get('edzed-custom') == 'keep me')
+        env.check('unused-removed', "<Counter 'old'>" not in store2 and other_type_key not in store2
+                  and store2.get('edzed-custom') == 'keep me', info=lambda: store2)
+        # the second block (no expiration) is restored from the same storage, whatever happens to the first one
+        env.check('restored-state', eq_(cnt2b.output, saved_cnt2), info=lambda: ('cnt2', cnt2b.output, saved_cnt2))
+        # after the initialisation the storage holds the state of run 2 again
+        env.check('saved-after-init', And_(state_eq(store2.get(blk2.key), blk2.output), state_eq(store2.get(cnt2b.key), cnt2b.output)),
+                  info=lambda: store2)
         await circ2.shutdown()
     vloop.run(run2())
 
